@@ -46,6 +46,13 @@ G_early == [r \in Two |-> IF r = 1 THEN <<Op("new"), Snd(9), Snd(2), Op("half"),
 GS_early == [r \in Two |-> IF r = 1 THEN <<Ret(3)>>
                                    ELSE <<Op("recv"), Snd(1), Ret(0)>>]
 
+\* (exhaustive instance, W = 4: the refused message between one that crosses the chunk size and a zero-length one)
+C_bad == [r \in One |-> <<Op("new"), Snd(3), Op("badsend"), Snd(0), Op("half"), Op("recv"), Op("recv")>>]
+S_bad == [r \in One |-> <<Op("recv"), Op("recv"), Op("recv"), Ret(0)>>]
+\* a message the encoder refuses, between two good ones: nothing of it is sent, the stream goes on
+G_bad == [r \in One |-> <<Op("new"), Snd(1), Op("badsend"), Snd(3), Op("half"), Op("recv"), Op("recv"), Op("recv")>>]
+GS_bad == [r \in One |-> <<Op("recv"), Op("recv"), Snd(2), Op("recv"), Ret(0)>>]
+
 \* sanity check of the liveness properties (must FAIL): without fairness of delivery nothing has to arrive
 UnfairSpec == Init /\ [][Next]_vars /\ WF_vars(Progress)
               /\ \A r \in RPCs : WF_vars(DrvOK /\ CliOpStart(r)) /\ WF_vars(DrvOK /\ SrvOpStart(r))
